@@ -1,6 +1,7 @@
 package main
 
 import (
+	"go/token"
 	"fmt"
 	"go/types"
 	"strings"
@@ -10,7 +11,7 @@ import (
 
 // localEnv builds the name -> value map for invariants / postconditions of the function executing
 // in frame fr: parameters, named locals held in Allocs (current content), named Phis.
-func (x *Exec) localEnv(st *State, fr *frame, env *Env) {
+func (x *Exec) localEnv(st *State, fr *frame, env *Env, pos token.Pos) {
 	for _, p := range fr.fn.Params {
 		if v, ok := st.regs[p]; ok {
 			env.vars[p.Name()] = v
@@ -25,13 +26,11 @@ func (x *Exec) localEnv(st *State, fr *frame, env *Env) {
 			}
 		}
 	}
-	pfx := fr.fn.String() + "."
-	for n, v := range st.names {
-		if strings.HasPrefix(n, pfx) {
-			env.vars[n[len(pfx):]] = v
-			delete(env.typs, n[len(pfx):])
-		}
+	for n, v := range x.s.resolveNames(st, fr.fn, pos) {
+		env.vars[n] = v
+		delete(env.typs, n)
 	}
+	allocPos := map[string]token.Pos{}
 	for _, b := range fr.fn.Blocks {
 		for _, ins := range b.Instrs {
 			switch in := ins.(type) {
@@ -55,6 +54,11 @@ func (x *Exec) localEnv(st *State, fr *frame, env *Env) {
 				if v, ok := st.regs[in]; ok {
 					if p, ok := v.(Ptr); ok && p.Loc != nil {
 						if c, ok := st.mem[p.Loc]; ok {
+							// several addressable locals of one name (shadowing): the first declared (outer) one
+							if old, dup := allocPos[in.Comment]; dup && old != token.NoPos && in.Pos() != token.NoPos && in.Pos() > old {
+								continue
+							}
+							allocPos[in.Comment] = in.Pos()
 							env.vars[in.Comment] = c
 							env.typs[in.Comment] = in.Type().(*types.Pointer).Elem()
 						}
@@ -125,7 +129,7 @@ func (x *Exec) loopInvariants(st *State, fr *frame, li *loopInfo, mode string, a
 		}
 		env.lets = con.Lets
 	}
-	x.localEnv(st, fr, env)
+	x.localEnv(st, fr, env, blockPos(li.header))
 	if assert {
 		// iterator protocol invariant for iterators advanced in this loop
 		if x.loopAdvancesIter(li) {
@@ -430,4 +434,24 @@ func (x *Exec) rangeNext(st *State, fr *frame, in *ssa.Next) {
 		ok, b, rn, b, w, b, rn, w, w, pos, w, str))
 	st.mem[p.Loc] = Rec{F: []Val{r.F[0], scInt(ite(ok, "(+ "+pos+" "+w+")", pos))}}
 	st.regs[in] = Rec{F: []Val{scBool(ok), scInt(pos), scInt(rn)}}
+}
+
+// blockPos: a source position inside the loop statement whose header block is b
+func blockPos(b *ssa.BasicBlock) token.Pos {
+	best := token.NoPos
+	for _, ins := range b.Instrs {
+		if p := ins.Pos(); p != token.NoPos && (best == token.NoPos || p < best) {
+			best = p
+		}
+	}
+	if best == token.NoPos {
+		for _, pr := range b.Preds {
+			for _, ins := range pr.Instrs {
+				if p := ins.Pos(); p != token.NoPos && p > best {
+					best = p
+				}
+			}
+		}
+	}
+	return best
 }
